@@ -1,6 +1,7 @@
 package conv
 
 import (
+	"bytes"
 	"strconv"
 	"encoding/json"
 	"fmt"
@@ -149,7 +150,41 @@ func mutateBytes(r *core.Rng, b []byte, donors []string) []byte {
 		return []byte("{")
 	}
 	out := append([]byte{}, b...)
-	switch r.Intn(7) {
+	switch r.Intn(12) {
+	case 7: // every line terminator becomes a bare CR / CRLF (both are GraphQL line terminators)
+		return bytes.ReplaceAll(out, []byte("\n"), []byte([]string{"\r", "\r\n", "\n\r", "\r\r"}[r.Intn(4)]))
+	case 8: // some line terminators become CR
+		for i := range out {
+			if out[i] == '\n' && r.Chance(0.4) {
+				out[i] = '\r'
+			}
+		}
+		return out
+	case 9: // byte-order mark first, or UTF-16-ish widening of a prefix
+		if r.Chance(0.7) {
+			return append([]byte("\xef\xbb\xbf"), out...)
+		}
+		n := r.Intn(min(40, len(out)) + 1)
+		var w []byte
+		for _, c := range out[:n] {
+			w = append(w, c, 0)
+		}
+		return append(w, out[n:]...)
+	case 10: // all blanks become tabs or commas (insignificant in GraphQL), or lines are joined
+		return bytes.ReplaceAll(out, []byte([]string{" ", " ", "\n"}[r.Intn(3)]), []byte([]string{"\t", ",", " ", ""}[r.Intn(4)]))
+	case 11: // the file repeated, or a very long comment / name / nesting
+		switch r.Intn(4) {
+		case 0:
+			return append(out, out...)
+		case 1:
+			return append([]byte("#"+strings.Repeat("x", 70000)+"\n"), out...)
+		case 2:
+			i := r.Intn(len(out))
+			return append(out[:i], append([]byte(strings.Repeat("{ a ", 3000)), out[i:]...)...)
+		default:
+			i := r.Intn(len(out))
+			return append(out[:i], append([]byte(strings.Repeat("A", 70000)), out[i:]...)...)
+		}
 	case 0: // bit flip
 		i := r.Intn(len(out))
 		out[i] ^= 1 << uint(r.Intn(8))
